@@ -693,8 +693,17 @@ class Collected:
     concatenation of these items over k = 0 .. len(seq) - 1."""
     _pyvc_model_class = True
 
-    def __init__(self, seq, k, items):
+    def __init__(self, seq, k, items, learnt=()):
         self.seq, self.k, self.items = seq, k, items
+        self.learnt = list(learnt)          # path-condition conjuncts about iteration k (re-assumed by `reassume` before stating obligations about it)
+
+    def reassume(self):
+        c = ctx()
+        for z in self.learnt:
+            c.assume(z)
+        for x in self.items:
+            if isinstance(x, Collected):
+                x.reassume()
 
     def leaves(self):
         """[(frames, value)] with frames = ((seq, k), ...) outermost first"""
